@@ -64,6 +64,10 @@ fn trunc(s: &str) -> String {
     s.chars().take(220).collect()
 }
 
+fn sampler_was_created(obs: &UserObs) -> bool {
+    !matches!(obs.fin, Final::NewFailed(_)) && !matches!(&obs.fin, Final::Panic(m) if m.starts_with("Sampler::new"))
+}
+
 pub struct Verdict {
     pub violations: Vec<(String, String)>,
     /// observation class (for counting distinct outcomes)
@@ -116,6 +120,23 @@ pub fn check(
     for m in &panics {
         let p = if flags.c13 { "C13" } else { "C11" };
         add(p, "panic-reached-caller", trunc(m));
+    }
+
+    // ---- progress callback (scenarios that install one): sampling time <= time passed ----
+    if scn.callback_ms.is_some() {
+        for e in ev {
+            if let Event::Callback { elapsed_ns, now_ns, chains } = e {
+                if elapsed_ns > now_ns {
+                    add("C11", "callback-sampling-time-exceeds-wall-time", format!("{elapsed_ns} ns reported after {now_ns} ns"));
+                }
+                if *chains != scn.chains {
+                    add("C11", "callback-progress-length", format!("{chains}"));
+                }
+            }
+        }
+        if healthy && sampler_was_created(obs) && !ev.iter().any(|e| matches!(e, Event::Callback { .. })) {
+            add("C11", "callback-never-called", String::new());
+        }
     }
 
     // ---- C10: recorded rows are bit-identical to the sequential reference ----
